@@ -316,8 +316,90 @@ Proof.
   intros H. apply (in_map eid) in H. rewrite set_status_upd, upd_first_ids in H; auto.
 Qed.
 
+(* ---- AddKeyWithOpts ---- *)
+Lemma apply_opts_req r opts : forall p p',
+  apply_opts (Some r) p opts = Some p' -> p_fixed p = r -> p_has p = true ->
+  p_fixed p' = r /\ p_has p' = true.
+Proof.
+  induction opts as [|o opts IH]; simpl; intros p p' H Hf Hh.
+  - inversion H; subst; auto.
+  - destruct o as [st|id| ].
+    + apply IH in H; auto.
+    + destruct (N.eqb r id) eqn:E; [|discriminate]. apply N.eqb_eq in E. subst id.
+      apply IH in H; auto.
+    + apply IH in H; auto.
+Qed.
+
+Lemma clear_primary_ids l : map eid (clear_primary l) = map eid l.
+Proof. unfold clear_primary. rewrite map_map. reflexivity. Qed.
+
+Lemma clear_primary_count l : count_prim (clear_primary l) = 0%nat.
+Proof. unfold count_prim, clear_primary. induction l; simpl; auto. Qed.
+
+Lemma clear_primary_In l e : In e (clear_primary l) ->
+  exists e0, In e0 l /\ eid e = eid e0 /\ est e = est e0 /\ ereq e = ereq e0 /\ eprim e = false.
+Proof.
+  unfold clear_primary. intros H. apply in_map_iff in H. destruct H as (e0 & <- & Hin).
+  exists e0. simpl. auto.
+Qed.
+
+Lemma EInv_clear_primary l : EInv l -> EInv (clear_primary l).
+Proof.
+  intros [H1 H2 H3 H4 H5]. constructor.
+  - rewrite clear_primary_ids. auto.
+  - rewrite clear_primary_count. lia.
+  - intros e He Hp. destruct (clear_primary_In _ _ He) as (e0 & _ & _ & _ & _ & F). congruence.
+  - intros e He. destruct (clear_primary_In _ _ He) as (e0 & I & _ & S & _ & _). rewrite S. auto.
+  - intros e He. destruct (clear_primary_In _ _ He) as (e0 & I & A & _ & R & _). unfold req_ok. rewrite R, A. apply H5; auto.
+Qed.
+
+Lemma EInv_add_gen l id st pr req k :
+  EInv l -> ~ In id (map eid l) -> (forall r, req = Some r -> r = id) -> st <> UnknownStatus ->
+  (pr = true -> st = Enabled /\ count_prim l = 0%nat) ->
+  EInv (l ++ [mkEntry id st pr req k]).
+Proof.
+  intros [H1 H2 H3 H4 H5] Hn Hr Hs Hp. constructor.
+  - rewrite map_app. simpl. apply NoDup_snoc; auto.
+  - rewrite count_prim_app. unfold count_prim at 2. simpl. destruct pr; simpl; [destruct (Hp eq_refl); lia | lia].
+  - intros e He Hpe. apply in_app_iff in He. destruct He as [He|[He|[]]]; auto. subst; simpl in *. apply Hp; auto.
+  - intros e He. apply in_app_iff in He. destruct He as [He|[He|[]]]; auto. subst; simpl; auto.
+  - intros e He. apply in_app_iff in He. destruct He as [He|[He|[]]]; auto. subst. unfold req_ok; simpl; auto.
+Qed.
+
 Definition SInv (s : state) : Prop :=
   Inv (smgr s) /\ Forall wf_handle (shandles s).
+
+Lemma place_inv m id req k st pr :
+  Inv m -> ~ In id (unavail m) -> (forall r, req = Some r -> r = id) -> st <> UnknownStatus ->
+  (pr = true -> st = Enabled) ->
+  Inv (mkMgr ((if pr then clear_primary (ents m) else ents m) ++ [mkEntry id st pr req k]) (id :: unavail m)).
+Proof.
+  intros [HE HU] Hn Hr Hs Hp. split; simpl.
+  - destruct pr.
+    + apply EInv_add_gen; auto.
+      * apply EInv_clear_primary; auto.
+      * rewrite clear_primary_ids. eapply unavail_not_in_ents; eauto. split; auto.
+      * intros _. split; auto. apply clear_primary_count.
+    + apply EInv_add_gen; auto.
+      * eapply unavail_not_in_ents; eauto. split; auto.
+      * discriminate.
+  - intros e He. apply in_app_iff in He. destruct He as [He|[He|[]]].
+    + right. destruct pr; [|auto].
+      destruct (clear_primary_In _ _ He) as (e0 & I & A & _). rewrite A. auto.
+    + subst. simpl. auto.
+Qed.
+
+Lemma opts_facts req opts p :
+  apply_opts req (mkPend (match req with Some r => r | None => 0%N end)
+                         (match req with Some _ => true | None => false end) Enabled false) opts = Some p ->
+  (p_has p = true -> forall r, req = Some r -> r = p_fixed p) /\ (p_has p = false -> req = None).
+Proof.
+  intros A. destruct req as [r|].
+  - apply apply_opts_req in A; auto. destruct A as [A1 A2]. split.
+    + intros _ r0 Hr. inversion Hr; subst; auto.
+    + intros C. congruence.
+  - split; [intros _ r Hr; discriminate | auto].
+Qed.
 
 Lemma make_handle_wf l h : EInv l -> make_handle l = Some h -> h = l /\ wf_handle l.
 Proof.
@@ -348,7 +430,7 @@ Qed.
 Theorem step_inv s o : SInv s -> SInv (fst (step s o)).
 Proof.
   intros HS. pose proof HS as [[HE HU] HH].
-  destruct o as [t|raw|req k|id|id|id|id| |n]; simpl.
+  destruct o as [t|raw|req k|req k opts|id|id|id|id| |n]; simpl.
   - destruct t; try apply add_fresh_inv; auto.
   - apply add_fresh_inv; auto.
   - destruct req as [id|]; [|apply add_fresh_inv; auto].
@@ -358,6 +440,22 @@ Proof.
     + apply EInv_add; auto. eapply unavail_not_in_ents; eauto. split; auto.
       intros r Hr; inversion Hr; auto.
     + intros e He. apply in_app_iff in He. destruct He as [He|[He|[]]]; auto. subst; simpl; auto.
+  - (* AddKeyWithOpts *)
+    destruct (apply_opts req _ opts) as [p|] eqn:A; simpl; auto.
+    destruct (opts_facts _ _ _ A) as [Hhas Hno].
+    destruct (status_eqb (p_st p) UnknownStatus) eqn:SU; simpl; auto.
+    destruct (p_prim p && negb (status_eqb (p_st p) Enabled)) eqn:PE; simpl; auto.
+    assert (Hst : p_st p <> UnknownStatus) by (intros C; rewrite C in SU; discriminate).
+    assert (Hpe : p_prim p = true -> p_st p = Enabled).
+    { intros Hp. rewrite Hp in PE. simpl in PE. apply negb_false_iff in PE. apply status_eqb_eq; auto. }
+    destruct (p_has p) eqn:HAS.
+    + destruct (mem (p_fixed p) (unavail (smgr s))) eqn:M; simpl; auto.
+      assert (~ In (p_fixed p) (unavail (smgr s))) by (intros Hc; apply mem_In in Hc; congruence).
+      split; simpl; auto. apply place_inv; auto. split; auto.
+    + destruct (new_random_id (unavail (smgr s)) (stape s) 0) as [[[[id u'] t'] d]|] eqn:E; simpl; [|split; [split|]; auto].
+      apply new_random_id_spec in E. destruct E as (Hn & -> & _).
+      split; simpl; auto. apply place_inv; auto. split; auto.
+      intros r Hr. rewrite Hno in Hr; auto. discriminate.
   - destruct (find_entry (ents (smgr s)) id) as [e|] eqn:F; simpl; auto.
     destruct (status_eqb (est e) Enabled) eqn:S; simpl; auto.
     apply status_eqb_eq in S.
@@ -418,7 +516,7 @@ Qed.
 (* every handle a history returns is well-formed *)
 Theorem step_handle_wf s o s' h : SInv s -> step s o = (s', RHandle h) -> wf_handle h.
 Proof.
-  intros [[HE HU] HH] H. destruct o as [t|raw|req k|id|id|id|id| |n]; simpl in H;
+  intros [[HE HU] HH] H. destruct o as [t|raw|req k|req k opts|id|id|id|id| |n]; simpl in H;
     try (unfold add_fresh in H;
          repeat match type of H with
                 | context [match ?x with _ => _ end] => destruct x
@@ -462,7 +560,7 @@ Theorem primary_persists s o : SInv s ->
   count_prim (ents (smgr s)) = 1%nat -> count_prim (ents (smgr (fst (step s o)))) = 1%nat.
 Proof.
   intros HS H1. pose proof HS as [[HE HU] HH].
-  destruct o as [t|raw|req k|id|id|id|id| |n]; simpl.
+  destruct o as [t|raw|req k|req k opts|id|id|id|id| |n]; simpl.
   - destruct t; simpl; auto; unfold add_fresh;
       destruct (new_random_id _ _ _) as [[[[? ?] ?] ?]|]; simpl; auto;
       rewrite count_prim_app; unfold count_prim at 2; simpl; lia.
@@ -472,6 +570,17 @@ Proof.
     + destruct (mem id _); simpl; auto. rewrite count_prim_app; unfold count_prim at 2; simpl; lia.
     + unfold add_fresh; destruct (new_random_id _ _ _) as [[[[? ?] ?] ?]|]; simpl; auto;
       rewrite count_prim_app; unfold count_prim at 2; simpl; lia.
+  - (* AddKeyWithOpts *)
+    destruct (apply_opts req _ opts) as [p|]; simpl; auto.
+    destruct (status_eqb (p_st p) UnknownStatus); simpl; auto.
+    destruct (p_prim p && negb (status_eqb (p_st p) Enabled)); simpl; auto.
+    assert (Hc : forall id, count_prim ((if p_prim p then clear_primary (ents (smgr s)) else ents (smgr s))
+                                        ++ [mkEntry id (p_st p) (p_prim p) req k]) = 1%nat).
+    { intros id. rewrite count_prim_app. unfold count_prim at 2. simpl.
+      destruct (p_prim p); simpl; [rewrite clear_primary_count; reflexivity | lia]. }
+    destruct (p_has p).
+    + destruct (mem (p_fixed p) (unavail (smgr s))); simpl; auto.
+    + destruct (new_random_id _ _ _) as [[[[? ?] ?] ?]|]; simpl; auto.
   - destruct (find_entry _ id) as [e|] eqn:F; simpl; auto.
     destruct (status_eqb (est e) Enabled) eqn:S; simpl; auto.
     apply status_eqb_eq in S. apply (EInv_set_primary id _ e HE F S).
@@ -490,13 +599,20 @@ Qed.
 (* an operation that returns an error leaves the keyset unchanged *)
 Theorem err_unchanged s o : snd (step s o) = RErr -> ents (smgr (fst (step s o))) = ents (smgr s).
 Proof.
-  destruct o as [t|raw|req k|id|id|id|id| |n]; simpl.
+  destruct o as [t|raw|req k|req k opts|id|id|id|id| |n]; simpl.
   - destruct t; simpl; auto; unfold add_fresh;
       destruct (new_random_id _ _ _) as [[[[? ?] ?] ?]|]; simpl; auto; discriminate.
   - unfold add_fresh; destruct (new_random_id _ _ _) as [[[[? ?] ?] ?]|]; simpl; auto; discriminate.
   - destruct req as [id|].
     + destruct (mem id _); simpl; auto; discriminate.
     + unfold add_fresh; destruct (new_random_id _ _ _) as [[[[? ?] ?] ?]|]; simpl; auto; discriminate.
+  - (* AddKeyWithOpts *)
+    destruct (apply_opts req _ opts) as [p|]; simpl; auto.
+    destruct (status_eqb (p_st p) UnknownStatus); simpl; auto.
+    destruct (p_prim p && negb (status_eqb (p_st p) Enabled)); simpl; auto.
+    destruct (p_has p).
+    + destruct (mem (p_fixed p) (unavail (smgr s))); simpl; auto; discriminate.
+    + destruct (new_random_id _ _ _) as [[[[? ?] ?] ?]|]; simpl; auto; discriminate.
   - destruct (find_entry _ id) as [e|]; simpl; auto. destruct (status_eqb _ _); simpl; auto; discriminate.
   - destruct (find_entry _ id) as [e|]; simpl; auto. destruct (_ || _); simpl; auto; discriminate.
   - destruct (find_entry _ id) as [e|]; simpl; auto. destruct (eprim e); simpl; auto.
@@ -524,7 +640,7 @@ Qed.
 (* handles obtained earlier are unaffected by later operations *)
 Theorem handles_stable s o : exists l, shandles (fst (step s o)) = shandles s ++ l.
 Proof.
-  destruct o as [t|raw|req k|id|id|id|id| |n]; simpl;
+  destruct o as [t|raw|req k|req k opts|id|id|id|id| |n]; simpl;
     try (exists []; rewrite app_nil_r;
          repeat match goal with
                 | |- context [match ?x with _ => _ end] => destruct x; simpl
@@ -550,7 +666,7 @@ Theorem unavail_grows s o :
   (forall k, o <> OFromHandle k) ->
   incl (unavail (smgr s)) (unavail (smgr (fst (step s o)))).
 Proof.
-  intros Hk. destruct o as [t|raw|req k|id|id|id|id| |n]; simpl;
+  intros Hk. destruct o as [t|raw|req k|req k opts|id|id|id|id| |n]; simpl;
     try (unfold add_fresh;
     repeat match goal with
            | |- context [match ?x with _ => _ end] => destruct x eqn:?; simpl
@@ -560,3 +676,22 @@ Proof.
     try apply incl_tl; apply incl_refl).
   exfalso. eapply Hk; eauto.
 Qed.
+
+(* AddKeyWithOpts, whatever the order of its options: a key that ends up marked
+   primary with a status other than ENABLED is refused and nothing changes *)
+Theorem addopts_non_enabled_primary_rejected s req k opts p :
+  apply_opts req (mkPend (match req with Some r => r | None => 0%N end)
+                         (match req with Some _ => true | None => false end) Enabled false) opts = Some p ->
+  p_prim p = true -> p_st p <> Enabled ->
+  step s (OAddOpts req k opts) = (s, RErr).
+Proof.
+  intros A P S. simpl. rewrite A.
+  destruct (status_eqb (p_st p) UnknownStatus); auto.
+  rewrite P. destruct (status_eqb (p_st p) Enabled) eqn:E; simpl; auto.
+  apply status_eqb_eq in E. contradiction.
+Qed.
+
+(* the order of WithStatus and AsPrimary does not matter *)
+Lemma apply_opts_status_primary_commute req p s t :
+  apply_opts req p (KStatus s :: KPrimary :: t) = apply_opts req p (KPrimary :: KStatus s :: t).
+Proof. reflexivity. Qed.
